@@ -6,7 +6,8 @@ rows=[]
 for f in sorted(glob.glob(os.path.join(ROOT,'seeded/*/meta.json'))):
     m=json.load(open(f))
     det='; '.join(f"{k}: {v}" for k,v in m.get('detected_by',{}).items()) or '**not detected**'
-    rows.append(f"| `{m['id']}` ({m['property']}): {m['change']} | {m['needs']} | {det} |")
+    st = f" *[{m['status']}]*" if m.get('status') else ''
+    rows.append(f"| `{m['id']}` ({m['property']}): {m['change']}{st} | {m['needs']} | {det} |")
 p=os.path.join(ROOT,'DESIGN.md')
 s=open(p).read()
 begin='| seeded change | what it needs to manifest | caught by (quick tier, seed 1) |\n|---|---|---|\n'
